@@ -173,3 +173,45 @@ func VH_C09_par_close_vs_close() {
 	vQuiescent(c, "C09.par.close-vs-close")
 	vAssert(t.closes == 1, "C09.par.close-close.transport-closed-once")
 }
+
+// One step of the sender-lock protocol from a pre-state in which ANOTHER goroutine holds the
+// sender lock: tryLockSender returns with Conn.mu held in every case - the lock was handed over, the
+// caller's context was cancelled, the connection is shutting down - and reports an error exactly
+// when it did not get the lock.
+func VH_C09_trylocksender_step() {
+	t := &vTransport{}
+	c := vNewConn(t, nil)
+	c.mu.Lock()
+	held := make(chan struct{})
+	c.sendCond = held // somebody else is sending
+	ctx, cancel := context.WithCancel(context.Background())
+	mode := vConcI(int(vNondetU8()), 3)
+	switch mode {
+	case 0:
+		cancel() // the caller gives up
+	case 1:
+		c.bgcancel() // the connection shuts down
+	default:
+		// the holder finishes its send while we wait
+		go func() {
+			c.mu.Lock()
+			c.unlockSender()
+			c.mu.Unlock()
+		}()
+	}
+	err := c.tryLockSender(ctx)
+	vReach("returned")
+	vAssert(!vMutexFree(&c.mu) && vLocksHeld() == 1, "C09.trylock.returns-with-conn-mutex-held")
+	if mode == 2 {
+		vAssert(err == nil && c.sendCond != nil && c.sendCond != held, "C09.trylock.acquired-after-handover")
+		if err == nil {
+			c.unlockSender()
+		}
+	} else {
+		vAssert(err != nil, "C09.trylock.reports-why-it-gave-up")
+		vAssert(c.sendCond == held, "C09.trylock.does-not-steal-the-lock")
+	}
+	c.mu.Unlock()
+	vAssert(vLocksHeld() == 0, "C09.trylock.no-lock-held")
+	cancel()
+}
